@@ -1,0 +1,5 @@
+//go:build !verif
+
+package goat
+
+func verifTrack(h *handler) {}
